@@ -4,6 +4,21 @@ import json, os
 here = os.path.dirname(os.path.abspath(__file__))
 baseline = "cd /repo && cargo test --workspace --no-fail-fast --offline"
 CHECKS = {
+ "C03": ("exploration", "§3 C03", "N real `copia serve` processes + client actors under a seeded baton scheduler (uniform / sticky / PCT / sequential) over simulated FS, flock and pipes; Wing-Gong-Lowe linearizability search of the recorded history against a sequential CAS map, final tree included",
+         "Every file-system, flock and pipe step of every server is a scheduling point chosen from the run seed, so interleavings such as 'B slips between A's stage and A's rename' are reached thousands of times per second and replay exactly. The oracle is an exact linearizability search (histories <= 24 ops) with the final hub tree as part of the model state. It found four genuine concurrency defects in serve.rs (shared staging file, non-atomic Get, non-atomic List), all repaired.",
+         "shim call = atomic step; advisory flock; atomic rename; clients use the real wire codec"),
+ "C10": ("exploration", "§3 C10", "same simulation with invalid Puts and server kills; path invariant evaluated by the kernel after every applied step; Get len/hash/bytes agreement",
+         "The invariant 'each live hub path holds initial content or the complete body of one verified Put addressed to it' is evaluated inside the scheduler after every step that changes the file system, so transient states between two servers' steps are observed, not just end states. Kills are placed before the k-th file-system call of a server.",
+         "as C03; kill releases flock and descriptors as the OS does"),
+ "C11": ("exploration", "§3 C11", "simulated sessions with hostile path strings against real serve on a file system with sentinels outside ROOT; every server call in the trace is checked for its physical location; differential control session without the refused requests",
+         "The trace records the resolved physical path of every call the server makes, so 'never opens/creates/renames/removes anything outside ROOT' is checked on every call rather than inferred from end states; refused requests must leave replies and tree identical to a session that never sent them.",
+         "no symlinks in the served tree; SimFs path resolution model"),
+ "C12": ("exploration", "§3 C12", "byte-stream injection (random, mutated/duplicated/reordered frames, hostile length prefixes and CBOR heads, cut at chosen offsets, seeded chunking) into real serve; allocator monitor, step budget, FS monitor, differential resynchronisation",
+         "Totality (no panic), termination after input close, the 1 MiB allocation bound (counting allocator on the server's thread), no effect before a valid prologue+request (trace + bytes-read accounting) and staying in step after error replies are each decided per run.",
+         "allocation bound measured as largest single request of the server's code; spin = step budget"),
+ "C13": ("exploration", "§3 C13", "histories of real `hub-sync` runs by several clients (each spawning a real serve, locally or through the ssh/shell stand-in), solo and overlapped under the seeded scheduler; post-conditions of exit 0 / exit != 0, traced second run",
+         "Overlapped clients produce stale listings (List before, Put after the other's commit) under the scheduler's control; conservation and retrievability are checked on the hub tree, and the immediate second run must issue no write.",
+         "ssh = reliable ordered stream to remote bash; acknowledgements read from hub-sync's report"),
  "C02": ("exploration", "§3 C02", "seeded histories of user edits and real `copia bisync` runs on simulated file systems (incl. runs aborted by injected I/O errors); version-conservation oracle over the recorded history",
          "Thousands of multi-step histories per second — including paths deleted on both sides and recreated, repeated conflicts with the same losing content and edits to conflict-copies — each checked run by run against the statement's disappearance rule with an independently tracked last-common tree. Two genuine defects were found this way (one repaired, two root-cause classes recorded as known findings).",
          "regular files; one bisync at a time; SimFs POSIX model; a version survives only at its path or a `.conflict-*` sibling"),
